@@ -99,6 +99,12 @@ pub fn hostile_frames() -> Vec<Frame> {
     ]
 }
 
+/// A declared length of 2^31 with nothing behind it: with the limit raised to u32::MAX it is within the limit, so the
+/// stream ends inside the frame (thorough tier only: the reader has to provide a 2 GiB buffer before it can notice).
+pub fn frame_2_pow_31() -> Frame {
+    Frame { declared: 0x8000_0000, payload: vec![], value: None, name: "declared-2^31" }
+}
+
 #[derive(Debug, Clone, PartialEq, Eq)]
 pub struct Expected {
     /// results of the frames that are complete and within the limit, in order
